@@ -37,7 +37,8 @@ EXTENDS Integers, Sequences, FiniteSets, TLC, Json, IOUtils, XData
    as plain definitions, so that TLC evaluates them once. *)
 CONSTANTS MaxCmd, MaxBps, MaxBk,
           Lifecycle,    \* TRUE: histories may restart and quit (C11)
-          Signals       \* TRUE: histories may send SIGUSR1 to the stopped program
+          Signals,      \* TRUE: histories may send SIGUSR1 to the stopped program
+          Extras        \* TRUE: histories may inject calls and arm a watchpoint (C02)
 
 N == Len(X)
 Exited == N + 1
